@@ -44,6 +44,17 @@ type ReplayFile struct {
 	Events    []string  `json:"events,omitempty"`
 	Shrunk    bool      `json:"shrunk"`
 	OrigLen   int       `json:"orig_tape_len,omitempty"`
+	// History: the violation depends on process-level state of the code under test that earlier runs of the
+	// same worker process left behind (e.g. a package-level pool); the replay re-executes that worker's run
+	// sequence (worker Idx of Count, runs Idx, Idx+Count, ... up to Run) in a fresh process.
+	History *HistoryReplay `json:"history,omitempty"`
+}
+
+// HistoryReplay identifies the run sequence of one worker process.
+type HistoryReplay struct {
+	Idx   int   `json:"worker_idx"`
+	Count int   `json:"worker_count"`
+	Runs  int64 `json:"runs"` // number of runs the worker executes, the last one being the violating run
 }
 
 // PropertySpec binds a property id to an engine and its budgets.
@@ -427,6 +438,7 @@ func Supervise(spec *PropertySpec, tier string, verifSeed uint64, budgetOverride
 	var viol *WorkerMsg
 	var violSub string
 	var violRace bool
+	violIdx, violCount := 0, 1
 	infra := ""
 	subsDone := map[string]int64{}
 	for _, b := range batches {
@@ -441,6 +453,7 @@ func Supervise(spec *PropertySpec, tier string, verifSeed uint64, budgetOverride
 			case o.violation != nil:
 				if viol == nil {
 					viol, violSub, violRace = o.violation, b.sub, o.race
+					violIdx, violCount = o.idx, b.workers
 				}
 			case o.hang != nil:
 				if spec.HangViolation {
@@ -510,8 +523,30 @@ func Supervise(spec *PropertySpec, tier string, verifSeed uint64, budgetOverride
 				code, m, msg = ReplayOnce(spec, rf)
 				ok = code == 1 && m != nil && m.Class == rf.Violation.Class
 			}
+			if !ok && viol.Run >= int64(violIdx) && violCount > 0 {
+				// the single run is clean in a fresh process: does the violation need what the earlier runs of the
+				// same worker process left behind in process-level state of the code under test?
+				rf.History = &HistoryReplay{Idx: violIdx, Count: violCount, Runs: (viol.Run-int64(violIdx))/int64(violCount) + 1}
+				code, m, msg = ReplayOnce(spec, rf)
+				if code == 1 && m != nil {
+					ok = true
+					if m.Class != rf.Violation.Class {
+						// the sequence fails in a fresh process too, at the same or an earlier run, with another symptom
+						fmt.Printf("note: the re-executed run sequence fails with class %s (first seen: %s)\n", m.Class, rf.Violation.Class)
+						rf.Violation = Violation{Class: m.Class, Detail: m.Detail}
+						viol.Class, viol.Detail = m.Class, m.Detail
+					}
+					fmt.Printf("note: the violation does not occur when run %d is executed alone in a fresh process; it reproduces when the %d runs that worker %d/%d executed before it are executed first (state carried across runs inside the code under test); the replay file re-executes that sequence\n", viol.Run, rf.History.Runs-1, violIdx, violCount)
+					b, _ := json.MarshalIndent(rf, "", " ")
+					os.WriteFile(replayPath, b, 0o644)
+				} else {
+					rf.History = nil
+				}
+			}
 			if ok {
-				fmt.Printf("note: violation replayed only on a retry (flaky replay)\n")
+				if rf.History == nil {
+					fmt.Printf("note: violation replayed only on a retry (flaky replay)\n")
+				}
 				exit = 1
 			} else {
 				infra = fmt.Sprintf("violation %q found (replay file %s) but it did not reproduce in a fresh process: %s", rf.Violation.Class, replayPath, msg)
@@ -646,6 +681,10 @@ func firstLines(s string, n int) string {
 func ReplayOnce(spec *PropertySpec, rf *ReplayFile) (int, *WorkerMsg, string) {
 	a := WorkerArgs{Property: rf.Property, Tier: rf.Tier, Seed: rf.VerifSeed, Replay: true, ReplayTape: rf.Tape, ReplaySeed: rf.Seed, ReplayAux: rf.Aux, Disabled: rf.Disabled, Sub: rf.Sub,
 		RunCapS: spec.RunCapS, Race: rf.Race, AnnounceRuns: rf.Race}
+	if h := rf.History; h != nil {
+		a.Replay, a.ReplayTape, a.ReplayAux = false, nil, nil
+		a.Idx, a.Count, a.MaxRuns, a.BudgetS, a.NoShrink = h.Idx, h.Count, h.Runs, 3600, true
+	}
 	if a.RunCapS == 0 {
 		a.RunCapS = 120
 	}
